@@ -290,7 +290,10 @@ def generate(tier, seed):
 
 
 def finding_key(case):
-    if "nan-at-data-point" in case.kind:
+    # only the narrow signature of the reported scipy behaviour: ONE data point (a hull vertex) predicted NaN by a
+    # plain Linear/Cubic with rescale=False; anything broader (many NaNs, other estimators) stays a violation
+    if case.kind in ("linear/nan-at-data-point", "cubic/nan-at-data-point") and "rescale=False" in case.inp["estimator"] \
+            and isinstance(case.out, dict) and case.out.get("non_finite_predictions") == 1:
         return "C01-scipy-find_simplex-misses-hull-vertex"
     return None
 
